@@ -248,6 +248,9 @@ fn run_prefix(scripting: bool, toks: &[Tok], upto: usize) -> (Vec<char>, bool, V
         if let (TkState::Until(_), Tok::End { .. }) = (&st, t) {
             st = TkState::Data;
         }
+        if let Tok::Eof = t {
+            st = TkState::Data;
+        }
         let r = tb.process_token(to_token(t), 1);
         let c = match r {
             TokenSinkResult::Continue => '-',
